@@ -335,6 +335,9 @@ def check(ctx):
     for cfgname in ctx.configs(quick=('base',), thorough=('base', 'wire', 'nostd')):
         f = ctx.facts(cfgname)
         rep.cur_config = cfgname
+        from . import common as _common
+        _common.check_frame(f, rep, 'C15-R0')
+        _common.check_derives(f, rep, 'C15-R0')
         eff = Effects(f)
         r1_add_or_replace(ctx, f, rep, eff)
         r2_accounting(ctx, f, rep)
